@@ -5,6 +5,7 @@ from vlib import gocheck
 def main():
     groups = [dict(pkg='compiler/internal/context_v2', rel='internal/context_v2', harnesses=['HarnessC15Graph'], max_paths=400000, wall_timeout=1700),
               dict(pkg='compiler/internal/context_v2', rel='internal/context_v2', harnesses=['HarnessC15Names'], max_paths=400000, wall_timeout=1700),
+              dict(pkg='compiler/internal/context_v2', rel='internal/context_v2', harnesses=['HarnessC15Order'], max_paths=400000, wall_timeout=1700),
               dict(pkg='compiler/internal/context_v2', rel='internal/context_v2', harnesses=['HarnessC15Race'], max_paths=400000, wall_timeout=1700)]
     groups += [dict(pkg='compiler/internal/pipeline', rel='internal/pipeline', harnesses=['HarnessC15Schedule%d' % k], max_paths=400000, max_instrs=200000000, wall_timeout=2400) for k in range(7)]
     rc = gocheck.run('C15', 'model_checking', groups, gocheck.GOSYM_ASSUME + [
@@ -12,7 +13,7 @@ def main():
         'map iteration order: ascending and descending key order (a symbolic choice), not all permutations',
         'HarnessC15Schedule0-6: the REAL processModule / parseModule (sync.Map LoadOrStore, WaitGroup, one goroutine per module, the real lexer and parser on in-memory module texts, AddDependency under the context lock) on seven project shapes (diamond, fan, chain, two-cycle, self-import, nine-module two-level fan, back edge to main) under delay-bounded scheduling (Emmi-Qadeer-Rakamaric): every schedule the default scheduler reaches with at most 2 delays (1 for the nine-module shape; +1 thorough) at synchronisation operations; a state with unfinished threads and none enabled is a deadlock; one modelled processor; schedules beyond the bound are outside the claim',
         'symbol visibility across modules is decided for one importer / one imported module by C12 (HarnessC12Modules), not here',
-    ], 'AddDependency / findCycle / hasCyclePath / ComputeTopologicalOrder / GetModuleNames are executed from their SSA for every sequence of up to 4 (5 thorough) import edges over 3 modules, including self-imports and repetitions, in every arrival order (edges and order are symbolic choices, 9^K sequences): a call is refused with a circular-import error exactly when it would close a cycle in the graph accepted so far (reference: transitive closure), the stored graph equals the accepted one, and the build order lists every module once with dependencies first. HarnessC15Names: the same refusal obligation for every sequence of 4 import edges (12^4) over FOUR modules two of which share their file base name (x/u, y/u): module identity must be the full import path.',
+    ], 'AddDependency / findCycle / hasCyclePath / ComputeTopologicalOrder / GetModuleNames are executed from their SSA for every sequence of up to 4 (5 thorough) import edges over 3 modules, including self-imports and repetitions, in every arrival order (edges and order are symbolic choices, 9^K sequences): a call is refused with a circular-import error exactly when it would close a cycle in the graph accepted so far (reference: transitive closure), the stored graph equals the accepted one, and the build order lists every module once with dependencies first. HarnessC15Names: the same refusal obligation for every sequence of 4 import edges (12^4) over FOUR modules two of which share their file base name (x/u, y/u): module identity must be the full import path. HarnessC15Order: EVERY acyclic import graph over 5 modules (6 thorough; each of the N(N-1)/2 forward edges chosen freely = 1024 / 32768 graphs, names rotated symbolically, both map iteration directions): the topological order lists every module exactly once, dependencies first (wide levels where one module releases several others need five modules).',
         extra_cov={'exhaustive': True})
     sys.exit(rc)
 
